@@ -52,6 +52,8 @@ def run_property(prop: str, tier: str, seed: int, evidence_dir=None, quiet=False
         rep.floor("functions scanned for memoising decorators", n, 3)
         from .rules.memo import check_cache_keys
         check_cache_keys(idx, rep, files)
+        from .rules.elementwise import check_elementwise
+        check_elementwise(idx, rep, files)
         from .rules.protocols import check_protocols
         rep.stats["protocol_sites"] = check_protocols(idx, rep, files)
         if tier == "thorough" and not os.environ.get("SA_NO_SELFTEST") and not rep.has_unlisted_violations():
